@@ -28,8 +28,68 @@ class Mat(V):
         return f"Mat[{self.frm}->{self.to}]"
 
 
+class Alt(V):
+    """a variable that holds differently typed geometric values on different paths (if/else lanes): every alternative is judged
+    at each typed use, so a lane that builds e.g. a local rotation where a global one is needed is reported"""
+    def __init__(self, alts):
+        self.alts = alts
+
+    def __repr__(self):
+        return "Alt(" + " | ".join(map(repr, self.alts)) + ")"
+
+
+def _typed(v):
+    return isinstance(v, (Pt, Vec, Rot, Quat, Mat))
+
+
+def _distribute(fn_name):
+    """evaluate a domain hook once per alternative of Alt operands (at most 8 combinations) and recombine"""
+    def wrap(self, *args, **kw):
+        base = getattr(super(FD, self), fn_name) if fn_name not in FD._own else FD._own[fn_name].__get__(self)
+        pos = [i for i, a in enumerate(args) if isinstance(a, Alt)]
+        lpos = [(i, j) for i, a in enumerate(args) if isinstance(a, list) for j, x in enumerate(a) if isinstance(x, Alt)]
+        if not pos and not lpos:
+            return base(*args, **kw)
+        combos = [list(args)]
+        for i in pos:
+            combos = [c[:i] + [alt] + c[i + 1:] for c in combos for alt in args[i].alts][:8]
+        for i, j in lpos:
+            nxt = []
+            for c in combos:
+                for alt in args[i][j].alts:
+                    l = list(c[i]); l[j] = alt
+                    nxt.append(c[:i] + [l] + c[i + 1:])
+            combos = nxt[:8]
+        outs = [base(*c, **kw) for c in combos]
+        outs = [o for o in outs if o is not None]
+        if not outs:
+            return None
+        r = outs[0]
+        for o in outs[1:]:
+            r = self.join(r, o, None, silent=True)
+        return r
+    return wrap
+
+
 class FD(FrameDomain):
     """FrameDomain + site log, rotation matrices, literal-overwrite rule, boundary summaries"""
+    _own = {}
+
+    def join(self, a, b, node, silent=False):
+        if silent:
+            xs = (a.alts if isinstance(a, Alt) else [a]) + (b.alts if isinstance(b, Alt) else [b])
+            if all(_typed(x) for x in xs):
+                uniq = []
+                for x in xs:
+                    if repr(x) not in [repr(u) for u in uniq]:
+                        uniq.append(x)
+                if len(uniq) == 1:
+                    return uniq[0]
+                if len(uniq) <= 4:
+                    return Alt(uniq)
+        if isinstance(a, Alt) or isinstance(b, Alt):
+            return Unknown("join")
+        return super().join(a, b, node, silent)
 
     def __init__(self):
         super().__init__()
@@ -141,6 +201,11 @@ class FD(FrameDomain):
         if base in ("swapaxes", "transpose") and args and isinstance(args[0], Mat):
             return Mat(args[0].to, args[0].frm)
         return super().call_external(q, args, kwargs, node)
+
+
+for _n in ("binop", "method", "store_sub", "attr", "subscript", "store_attr", "call_external"):
+    FD._own[_n] = FD.__dict__.get(_n) or getattr(FrameDomain, _n)
+    setattr(FD, _n, _distribute(_n))
 
 
 def _find_fn(arepo, modname, fn):
